@@ -49,6 +49,8 @@ pub use self::{
 mod behaviour;
 mod handler;
 mod protocol;
+#[cfg(libp2p_verif)] pub use handler::verif_c46;
+#[cfg(libp2p_verif)] pub use behaviour::verif_c46_filter;
 
 mod proto {
     #![allow(unreachable_pub)]
